@@ -11,5 +11,6 @@ Definition w_table_of := TableSpec.table_of.
 Definition w_mkcol := TableSpec.mkcol.
 Definition w_mkbatch := TableSpec.mkbatch.
 Definition w_mkopt := FileWriterModel.mkopt.
+Definition w_read := WriterThriftModel.read_concrete.
 
-Extraction "extracted/writer_ext.ml" w_run w_table_of w_mkcol w_mkbatch w_mkopt.
+Extraction "extracted/writer_ext.ml" w_run w_table_of w_mkcol w_mkbatch w_mkopt w_read.
